@@ -486,7 +486,8 @@ def assemble(unit: dict, scratch: str, passname="A") -> Assembled:
         if f["in_trait_decl"] and not unit.get("emit_trait_defaults"):
             continue
         g = (f["impl_type"], f["impl_generics"], f["impl_self_ty"]) if f["impl_type"] else None
-        if g is not None and f.get("trait") and f["trait"] in unit.get("trait_impls", []):
+        if g is not None and f.get("trait") and (f["trait"] in unit.get("trait_impls", [])
+                                                 or f"{f['trait']} for {f['impl_self_ty']}" in unit.get("trait_impls", [])):
             # real trait impl (needed when the self type is a primitive such as i128: no inherent impl possible)
             g = g + (f["trait"],)
         if g not in groups:
@@ -501,7 +502,7 @@ def assemble(unit: dict, scratch: str, passname="A") -> Assembled:
         lines += s.count("\n") + 1
 
     emit("// ==== functions extracted from /repo (bodies rewritten only by rules T1-T12) ====")
-    for tname in unit.get("trait_impls", []):
+    for tname in sorted({t_.split(" for ")[0] for t_ in unit.get("trait_impls", [])}):
         # declaration of a source trait whose impls are emitted as trait impls (signatures only, from the source)
         for t in tr["traits"]:
             if t["trait"] == tname:
